@@ -51,16 +51,14 @@ Qed.
 (* update_records on a well-formed zone                                *)
 (* ------------------------------------------------------------------ *)
 
-(* what update_records does on a well-formed zone, outside the known classes, after prescan *)
+(* what update_records does on a well-formed zone, outside the known class, after prescan:
+   it never panics and never answers SERVFAIL *)
 Lemma update_records_spec ovf o z us :
   WF o z -> Forall (ok_rr o) us -> pre_scan o us = NoError ->
   exists z1 upd, apply_rrs o z false us = (z1, upd, true) /\ WF o z1 /\
   ((upd = false /\ update_records ovf o z us true = (z1, Rc NoError)) \/
    (upd = true /\ exists s r ttl, zget z1 (o, tSOA) = Some [(DSoa s r, ttl)] /\
-      match next_serial ovf s with
-      | None => update_records ovf o z us true = (zdel z1 (o, tSOA), Panicked)
-      | Some s' => update_records ovf o z us true = (zset z1 (o, tSOA) [(DSoa s' r, ttl)], Rc NoError)
-      end)).
+      update_records ovf o z us true = (zset z1 (o, tSOA) [(DSoa ((s + 1) mod two32) r, ttl)], Rc NoError))).
 Proof.
   intros W Hok Hp. destruct (pre_scan_total o us Hp z false) as (z1 & upd & Ha).
   exists z1, upd. split; [exact Ha|].
@@ -68,28 +66,37 @@ Proof.
   unfold update_records. rewrite Ha. cbn [negb]. destruct upd; cbn [andb negb].
   - right. split; [reflexivity|].
     destruct (increment_spec ovf o z1 W1) as (s & r & ttl & Hs & ->). exists s, r, ttl. split; [exact Hs|].
-    destruct (next_serial ovf s) as [s'|]; [|reflexivity].
-    rewrite zget_zset_same. reflexivity.
+    unfold next_serial. rewrite zget_zset_same. reflexivity.
   - left. auto.
 Qed.
 
-Lemma update_WF ovf o z m :
-  WF o z -> Known_inv o m = false -> snd (update ovf o z m) <> Panicked -> WF o (fst (update ovf o z m)).
+Lemma update_no_panic ovf o z m : WF o z -> Known_inv o m = false -> snd (update ovf o z m) <> Panicked.
 Proof.
   intros W Hk. apply Known_inv_false in Hk. unfold update.
-  destruct (negb (m_auth m)); [intros _; exact W|].
-  destruct (negb (verify_prerequisites o z (m_pre m) =? NoError)); [intros _; exact W|].
-  destruct (negb (pre_scan o (m_upd m) =? NoError)) eqn:Ep; [intros _; exact W|].
+  destruct (negb (m_auth m)); [discriminate|].
+  destruct (negb (verify_prerequisites o z (m_pre m) =? NoError)); [discriminate|].
+  destruct (negb (pre_scan o (m_upd m) =? NoError)) eqn:Ep; [discriminate|].
   apply negb_false_iff, N.eqb_eq in Ep.
-  destruct (update_records_spec ovf o z (m_upd m) W Hk Ep) as (z1 & upd & Ha & W1 & [[_ ->]|(_ & s & r & ttl & Hs & Hn)]).
-  - intros _. exact W1.
-  - destruct (next_serial ovf s) as [s'|]; rewrite Hn; cbn [fst snd]; [intros _|congruence].
-    apply (WF_new_soa o z1 _ s' r ttl W1).
+  destruct (update_records_spec ovf o z (m_upd m) W Hk Ep) as (z1 & upd & Ha & W1 & [[_ ->]|(_ & s & r & ttl & Hg & ->)]);
+    discriminate.
+Qed.
+
+Lemma update_WF ovf o z m :
+  WF o z -> Known_inv o m = false -> WF o (fst (update ovf o z m)).
+Proof.
+  intros W Hk. apply Known_inv_false in Hk. unfold update.
+  destruct (negb (m_auth m)); [exact W|].
+  destruct (negb (verify_prerequisites o z (m_pre m) =? NoError)); [exact W|].
+  destruct (negb (pre_scan o (m_upd m) =? NoError)) eqn:Ep; [exact W|].
+  apply negb_false_iff, N.eqb_eq in Ep.
+  destruct (update_records_spec ovf o z (m_upd m) W Hk Ep) as (z1 & upd & Ha & W1 & [[_ ->]|(_ & s & r & ttl & Hs & ->)]).
+  - exact W1.
+  - cbn [fst]. apply (WF_new_soa o z1 _ ((s + 1) mod two32) r ttl W1).
     + intros k Hk'. apply zget_zset_other. congruence.
     + apply zget_zset_same.
 Qed.
 
-(* an answer other than NOERROR (and no panic) means nothing changed: all-or-nothing *)
+(* an answer other than NOERROR means nothing changed: all-or-nothing *)
 Lemma update_error_unchanged ovf o z m c :
   WF o z -> Known_inv o m = false -> snd (update ovf o z m) = Rc c -> c <> NoError ->
   fst (update ovf o z m) = z.
@@ -99,9 +106,8 @@ Proof.
   destruct (negb (verify_prerequisites o z (m_pre m) =? NoError)); [reflexivity|].
   destruct (negb (pre_scan o (m_upd m) =? NoError)) eqn:Ep; [reflexivity|].
   apply negb_false_iff, N.eqb_eq in Ep.
-  destruct (update_records_spec ovf o z (m_upd m) W Hk Ep) as (z1 & upd & Ha & W1 & [[_ ->]|(_ & s & r & ttl & Hs & Hn)]).
-  - cbn [fst snd]. intros H; inversion H; subst. congruence.
-  - destruct (next_serial ovf s) as [s'|]; rewrite Hn; cbn [fst snd]; intros H; inversion H; subst. congruence.
+  destruct (update_records_spec ovf o z (m_upd m) W Hk Ep) as (z1 & upd & Ha & W1 & [[_ ->]|(_ & s & r & ttl & Hs & ->)]);
+    cbn [fst snd]; intros H; inversion H; subst; congruence.
 Qed.
 
 (* ------------------------------------------------------------------ *)
@@ -142,12 +148,42 @@ Qed.
 Lemma serial_wf o z s r ttl : zget z (o, tSOA) = Some [(DSoa s r, ttl)] -> serial o z = s.
 Proof. unfold serial. now intros ->. Qed.
 
+(* the model's SOA comparison (SerialNumber::partial_cmp = Greater) is RFC 1982 "less than",
+   read the other way round *)
+Lemma soa_newer_serial_lt ns es : soa_newer ns es = serial_lt es ns.
+Proof.
+  unfold soa_newer, serial_lt, half32. rewrite (N.eqb_sym ns es). f_equal. apply orb_comm.
+Qed.
+
+(* the successor of any serial is newer: in particular 0 after 2^32-1 *)
+Lemma soa_newer_succ s : soa_newer ((s + 1) mod two32) s = true.
+Proof.
+  unfold soa_newer, half32, two32.
+  destruct (N.lt_ge_cases (s + 1) 4294967296) as [Hlt|Hge].
+  - rewrite N.mod_small by exact Hlt.
+    assert ((s + 1 =? s) = false) as -> by (apply N.eqb_neq; lia).
+    assert ((s <? s + 1) = true) as -> by (apply N.ltb_lt; lia).
+    replace (s + 1 - s) with 1 by lia. cbn. apply orb_true_r.
+  - pose proof (N.div_mod (s + 1) 4294967296 ltac:(lia)) as Hdm.
+    pose proof (N.mod_lt (s + 1) 4294967296 ltac:(lia)) as Hm.
+    set (q := (s + 1) / 4294967296) in *. set (r := (s + 1) mod 4294967296) in *.
+    assert (1 <= q) as Hq.
+    { destruct (N.eq_dec q 0) as [E|E]; [rewrite E in Hdm; lia|lia]. }
+    assert ((r =? s) = false) as -> by (apply N.eqb_neq; nia).
+    assert ((r <? s) = true) as -> by (apply N.ltb_lt; nia).
+    assert ((2147483648 <? s - r) = true) as -> by (apply N.ltb_lt; nia).
+    reflexivity.
+Qed.
+
+Lemma serial_lt_succ s : serial_lt s ((s + 1) mod two32) = true.
+Proof. rewrite <- soa_newer_serial_lt. apply soa_newer_succ. Qed.
+
 (* an Update RR without SOA RDATA leaves the apex SOA alone *)
 Lemma apply_rr_soa_same o z u z' b :
   WF o z -> ok_rr o u -> (forall s r, rdat u <> DSoa s r) ->
   apply_rr o z u = Some (z', b) -> zget z' (o, tSOA) = zget z (o, tSOA).
 Proof.
-  intros W [Ha Hs] Hd. unfold apply_rr.
+  intros W Hs Hd. unfold apply_rr.
   destruct (rclass u =? cIN).
   { intros H. inversion H as [H1]. destruct (upsert_spec _ _ _ _ H1) as [[_ ->]|(_ & _ & _ & recs' & Hi & ->)]; [reflexivity|].
     destruct (key_eqb (rname u, rtype u) (o, tSOA)) eqn:Ek.
@@ -159,10 +195,7 @@ Proof.
   destruct (rclass u =? cANY) eqn:Eany.
   { destruct (((rtype u =? tSOA) || (rtype u =? tNS)) && name_eqb (rname u) o) eqn:Eg; [intros H; now inversion H|].
     destruct (rtype u =? tANY) eqn:Et.
-    - intros H; inversion H; subst. unfold apex_wipe in Ha. rewrite Eany, Et in Ha. cbn [andb] in Ha.
-      rewrite zget_retain. unfold retain_keep. cbn [fst snd].
-      assert (name_eqb o (rname u) = false) as -> by (apply name_eqb_neq; apply name_eqb_neq in Ha; congruence).
-      reflexivity.
+    - intros H; inversion H; subst. rewrite zget_retain, retain_keeps_apex by auto. reflexivity.
     - destruct (rdat u); try discriminate. intros H; inversion H; subst. rewrite zget_zdel.
       destruct (key_eqb (o, tSOA) (rname u, rtype u)) eqn:Ek; [|reflexivity].
       apply key_eqb_eq in Ek. inversion Ek as [[En Ety]].
@@ -183,81 +216,53 @@ Proof.
   - inversion Hok as [|? ? Hu Hok']; subst. cbn [soa_serials flat_map] in Hs.
     apply app_eq_nil in Hs. destruct Hs as [Hs1 Hs2].
     destruct (apply_rr o z u) as [[z1 b]|] eqn:Ea; [|intros H; now inversion H].
-    intros H. rewrite (IH z1 _ _ _ _ (apply_rr_WF _ _ _ _ _ W (proj1 Hu) (proj2 Hu) Ea) Hok' Hs2 H).
+    intros H. rewrite (IH z1 _ _ _ _ (apply_rr_WF _ _ _ _ _ W Hu Ea) Hok' Hs2 H).
     eapply apply_rr_soa_same; eauto. intros s r E. rewrite E in Hs1. discriminate.
 Qed.
 
-Lemma serial_lt_succ s : s < two32 -> serial_lt s ((s + 1) mod two32) = true.
+(* whatever changed, the new serial is the successor (mod 2^32) of the serial the zone had when
+   the update section had been applied, which is RFC 1982-newer than it *)
+Lemma update_changed_successor ovf o z m z' :
+  WF o z -> Known_inv o m = false -> update ovf o z m = (z', Rc NoError) -> z' <> z ->
+  exists z1 upd, apply_rrs o z false (m_upd m) = (z1, upd, true) /\
+    serial o z' = (serial o z1 + 1) mod two32 /\ serial_lt (serial o z1) (serial o z') = true.
 Proof.
-  intros H. unfold serial_lt, two32 in *. destruct (N.eq_dec s 4294967295) as [->|Hn].
-  - reflexivity.
-  - rewrite N.mod_small by lia.
-    assert ((s =? s + 1) = false) as -> by (apply N.eqb_neq; lia).
-    assert ((s <? s + 1) = true) as -> by (apply N.ltb_lt; lia).
-    replace (s + 1 - s) with 1 by lia. reflexivity.
-Qed.
-
-(* serials are 32-bit in a zone built from 32-bit inputs; we carry it as a hypothesis on the zone *)
-Definition serial32 (o : name) (z : zone) : Prop := serial o z < two32.
-
-Lemma update_changed_advances ovf o z m z' :
-  WF o z -> serial32 o z -> Known_inv o m = false -> soa_serials (m_upd m) = [] ->
-  update ovf o z m = (z', Rc NoError) -> z' <> z ->
-  serial_lt (serial o z) (serial o z') = true /\ serial o z' = (serial o z + 1) mod two32.
-Proof.
-  intros W H32 Hk Hs. apply Known_inv_false in Hk. unfold update.
+  intros W Hk. apply Known_inv_false in Hk. unfold update.
   destruct (negb (m_auth m)); [intros H; inversion H; congruence|].
   destruct (negb (verify_prerequisites o z (m_pre m) =? NoError)); [intros H; inversion H; congruence|].
   destruct (negb (pre_scan o (m_upd m) =? NoError)) eqn:Ep; [intros H; inversion H; congruence|].
   apply negb_false_iff, N.eqb_eq in Ep.
-  destruct (update_records_spec ovf o z (m_upd m) W Hk Ep) as (z1 & upd & Ha & W1 & [[-> ->]|(_ & s & r & ttl & Hg & Hn)]).
+  destruct (update_records_spec ovf o z (m_upd m) W Hk Ep) as (z1 & upd & Ha & W1 & [[-> ->]|(-> & s & r & ttl & Hg & ->)]).
   - intros H; inversion H; subst. apply apply_rrs_false in Ha. destruct Ha as [-> _]. congruence.
-  - destruct (next_serial ovf s) as [s'|] eqn:En; rewrite Hn; intros H; inversion H; subst. intros _.
-    pose proof (apply_rrs_soa_same _ _ _ _ _ _ _ W Hk Hs Ha) as Hsame. rewrite Hg in Hsame.
-    assert (serial o z = s) as Es by (unfold serial; now rewrite <- Hsame).
-    assert (serial o (zset z1 (o, tSOA) [(DSoa s' r, ttl)]) = s') as ->
+  - intros H; inversion H; subst. intros _. exists z1, true. split; [exact Ha|].
+    rewrite (serial_wf _ _ _ _ _ Hg).
+    assert (serial o (zset z1 (o, tSOA) [(DSoa ((s + 1) mod two32) r, ttl)]) = (s + 1) mod two32) as ->
       by (apply (serial_wf _ _ _ r ttl); apply zget_zset_same).
-    unfold next_serial in En. destruct ((s =? two32 - 1) && ovf); [discriminate|]. inversion En; subst s'.
-    rewrite Es. split; [|reflexivity]. apply serial_lt_succ. unfold serial32 in H32. now rewrite Es in H32.
+    split; [reflexivity|apply serial_lt_succ].
+Qed.
+
+Lemma update_changed_advances ovf o z m z' :
+  WF o z -> Known_inv o m = false -> soa_serials (m_upd m) = [] ->
+  update ovf o z m = (z', Rc NoError) -> z' <> z ->
+  serial_lt (serial o z) (serial o z') = true /\ serial o z' = (serial o z + 1) mod two32.
+Proof.
+  intros W Hk Hs Hu Hne. pose proof (Known_inv_false _ _ Hk) as Hok.
+  destruct (update_changed_successor ovf o z m z' W Hk Hu Hne) as (z1 & upd & Ha & H1 & H2).
+  pose proof (apply_rrs_soa_same _ _ _ _ _ _ _ W Hok Hs Ha) as Hsame.
+  assert (serial o z1 = serial o z) as E by (unfold serial; now rewrite Hsame).
+  rewrite E in *. auto.
 Qed.
 
 (* history level *)
 Lemma run_WF ovf o ms : forall z,
   WF o z -> Forall (fun m => Known_inv o m = false) ms ->
-  Forall (fun zr => snd zr <> Panicked) (run ovf o z ms) ->
-  Forall (fun zr => WF o (fst zr)) (run ovf o z ms).
+  Forall (fun zr => WF o (fst zr) /\ snd zr <> Panicked) (run ovf o z ms).
 Proof.
-  induction ms as [|m ms IH]; intros z W Hk Hp; cbn [run] in *; [constructor|].
+  induction ms as [|m ms IH]; intros z W Hk; cbn [run] in *; [constructor|].
   inversion Hk as [|? ? Hk1 Hk2]; subst.
-  pose proof (update_WF ovf o z m W Hk1) as Hw.
+  pose proof (update_WF ovf o z m W Hk1) as Hw. pose proof (update_no_panic ovf o z m W Hk1) as Hn.
   destruct (update ovf o z m) as [z' r]. cbn [fst snd] in *.
-  inversion Hp as [|? ? Hp1 Hp2]; subst. constructor; [now apply Hw|]. apply IH; auto.
-Qed.
-
-Lemma next_serial_release s : next_serial false s = Some ((s + 1) mod two32).
-Proof. unfold next_serial. now rewrite andb_false_r. Qed.
-
-Lemma update_release_no_panic o z m : WF o z -> Known_inv o m = false -> snd (update false o z m) <> Panicked.
-Proof.
-  intros W Hk. apply Known_inv_false in Hk. unfold update.
-  destruct (negb (m_auth m)); [discriminate|].
-  destruct (negb (verify_prerequisites o z (m_pre m) =? NoError)); [discriminate|].
-  destruct (negb (pre_scan o (m_upd m) =? NoError)) eqn:Ep; [discriminate|].
-  apply negb_false_iff, N.eqb_eq in Ep.
-  destruct (update_records_spec false o z (m_upd m) W Hk Ep) as (z1 & upd & Ha & W1 & [[_ ->]|(_ & s & r & ttl & Hg & Hn)]);
-    [discriminate|].
-  rewrite next_serial_release in Hn. rewrite Hn. discriminate.
-Qed.
-
-Lemma run_release_no_panic o ms : forall z,
-  WF o z -> Forall (fun m => Known_inv o m = false) ms ->
-  Forall (fun zr => snd zr <> Panicked) (run false o z ms).
-Proof.
-  induction ms as [|m ms IH]; intros z W Hk; cbn [run]; [constructor|].
-  inversion Hk as [|? ? Hk1 Hk2]; subst.
-  pose proof (update_release_no_panic o z m W Hk1) as Hn.
-  pose proof (update_WF false o z m W Hk1 Hn) as Hw.
-  destruct (update false o z m) as [z' r]. cbn [fst snd] in *. constructor; [exact Hn|]. now apply IH.
+  constructor; [split; assumption|]. apply IH; auto.
 Qed.
 
 (* "sequential": message k is judged against the zone left by messages 1..k-1 *)
@@ -266,4 +271,26 @@ Lemma run_app ovf o ms1 : forall z ms2,
 Proof.
   induction ms1 as [|m ms1 IH]; intros z ms2; cbn [run app final fold_left]; [reflexivity|].
   destruct (update ovf o z m) as [z' r] eqn:E. cbn [fst app]. f_equal. apply IH.
+Qed.
+
+(* the repaired "delete all RRsets from a name" at the apex: SOA and NS stay, the rest goes *)
+Lemma apex_delete_all_spec o z u z' b :
+  apex_wipe o u = true -> apply_rr o z u = Some (z', b) ->
+  zget z' (o, tSOA) = zget z (o, tSOA) /\ zget z' (o, tNS) = zget z (o, tNS) /\
+  (forall t, t <> tSOA -> t <> tNS -> zget z' (o, t) = None) /\
+  (forall n t, n <> o -> zget z' (n, t) = zget z (n, t)).
+Proof.
+  unfold apex_wipe. intros H. apply andb_true_iff in H. destruct H as [H Hn].
+  apply andb_true_iff in H. destruct H as [Hc Ht]. apply name_eqb_eq in Hn.
+  apply N.eqb_eq in Hc, Ht. unfold apply_rr. rewrite Hc, Ht, Hn.
+  replace (cANY =? cIN) with false by reflexivity. replace (cANY =? cANY) with true by reflexivity.
+  replace (tANY =? tSOA) with false by reflexivity. replace (tANY =? tNS) with false by reflexivity.
+  replace (tANY =? tANY) with true by reflexivity. cbn [orb andb].
+  intros E; inversion E; subst z' b. repeat split.
+  - rewrite zget_retain, retain_keeps_apex by auto. reflexivity.
+  - rewrite zget_retain, retain_keeps_apex by auto. reflexivity.
+  - intros t H1 H2. rewrite zget_retain. unfold retain_keep. cbn [fst snd]. rewrite name_eqb_refl.
+    apply N.eqb_neq in H1, H2. rewrite H1, H2. reflexivity.
+  - intros n t Hne. rewrite zget_retain. unfold retain_keep. cbn [fst snd].
+    assert (name_eqb n o = false) as -> by now apply name_eqb_neq. reflexivity.
 Qed.
